@@ -10,7 +10,7 @@ namespace Pysnark
 /-! ## `Vals` as a partial function -/
 namespace Vals
 
-theorem get?_set (vs : Vals) (x y : Nat) (o : Obj) :
+theorem get?_set (vs : Vals) (x y : Nat) (o : TVal) :
     (vs.set x o).get? y = if x = y then some o else vs.get? y := by
   induction vs with
   | nil => simp [set, get?]
@@ -72,7 +72,7 @@ theorem get?_setAll_aux (other : Vals) : ∀ (l : Vals) (acc : Vals) (x : Nat),
     · have : (kv.1 == x) = false := by simpa using hk
       cases hl : l.any (fun kv => kv.1 == x) <;> simp [this, hk]
 
-theorem mem_get? : ∀ (vs : Vals) (kv : Nat × Obj), kv ∈ vs → ∃ o, vs.get? kv.1 = some o
+theorem mem_get? : ∀ (vs : Vals) (kv : Nat × TVal), kv ∈ vs → ∃ o, vs.get? kv.1 = some o
   | [], _, h => by cases h
   | (k, p) :: t, kv, h => by
     simp only [get?]
@@ -99,13 +99,27 @@ theorem get?_setAll (vs other : Vals) (x : Nat) :
   rw [get?_setAll_aux other other vs x (fun kv h => mem_get? other kv h), any_key_iff]
   cases other.has x <;> rfl
 
-/-- the integer a tracked variable holds -/
-def valOf (vs : Vals) (x : Nat) : Option Int := (vs.get? x).map (·.v.value)
+theorem get?_backup : ∀ (vs : Vals) (x : Nat), vs.backup.get? x = (vs.get? x).map TVal.dcopy
+  | [], x => rfl
+  | (k, o) :: t, x => by
+    simp only [backup, get?]
+    by_cases hk : k = x
+    · simp [hk]
+    · simp only [hk, if_false]; exact get?_backup t x
+
+theorem has_backup (vs : Vals) (x : Nat) : vs.backup.has x = vs.has x := by
+  unfold has; rw [get?_backup]; cases vs.get? x <;> rfl
 
 end Vals
 end Pysnark
 
 namespace Pysnark
+
+open Lean.Parser.Tactic in
+/-- split `(m >>= f) s = .ok r` (hypothesis `h`) into the two runs; `h` becomes the second one (the
+original is cleared, so that later substitutions cannot bring it back under the same name) -/
+macro "obind " h:ident " with " x:rcasesPatLo ", " s:ident ", " h1:ident : tactic =>
+  `(tactic| (have hb__ := bind_ok.mp $h; clear $h; obtain ⟨$x, $s, $h1, $h⟩ := hb__))
 
 /-! ## inversion of the library layer -/
 
@@ -115,40 +129,102 @@ theorem restoreGuard_ok {bak : GuardBak} {s s' : St} {u : Unit} (h : restoreGuar
   simp only [Except.ok.injEq, Prod.mk.injEq] at h
   exact h.2.symm
 
-theorem mergeObj_ok {c : LinComb} {t f r : Obj} {n n' : Nat} {s s' : St}
-    (h : mergeObj c t f n s = .ok ((r, n'), s')) :
-    (t.id = f.id ∧ t.v = f.v ∧ r = t ∧ n' = n ∧ s' = s) ∨
-    (t.id ≠ f.id ∧ ∃ l, iteLLL c t.v f.v s = .ok (l, s') ∧ r = ⟨l, n⟩ ∧ n' = n + 1) := by
-  unfold mergeObj at h
-  by_cases hid : t.id = f.id
+theorem freshS_ok {v : Val} {n n' : Nat} {o : SVal} {s s' : St} (h : freshS v n s = .ok ((o, n'), s')) :
+    SVal.ofVal v n = some o ∧ n' = n + 1 ∧ s' = s := by
+  unfold freshS at h
+  cases hv : SVal.ofVal v n with
+  | none => simp only [hv] at h; exact (raise_ok.mp h).elim
+  | some o' =>
+    simp only [hv] at h
+    obtain ⟨h1, rfl⟩ := pure_ok' h
+    simp only [Prod.mk.injEq] at h1
+    exact ⟨by rw [h1.1], h1.2.symm, rfl⟩
+
+theorem mergeS_ok {c : LinComb} {t f r : SVal} {n n' : Nat} {s s' : St}
+    (h : mergeS c t f n s = .ok ((r, n'), s')) :
+    (SVal.sameObj t f = true ∧ t = f ∧ r = t ∧ n' = n ∧ s' = s) ∨
+    (SVal.sameObj t f = false ∧ ∃ v, iteScalar c t.toVal f.toVal s = .ok (v, s') ∧ SVal.ofVal v n = some r ∧ n' = n + 1) := by
+  unfold mergeS at h
+  by_cases hid : SVal.sameObj t f = true
   · simp only [hid, if_true] at h
-    by_cases hv : t.v = f.v
+    by_cases hv : t = f
     · simp only [hv, if_true] at h
       obtain ⟨h1, rfl⟩ := pure_ok' h
       simp only [Prod.mk.injEq] at h1
-      exact Or.inl ⟨hid, hv, h1.1.symm, h1.2.symm, rfl⟩
+      exact Or.inl ⟨hid, hv, by rw [← h1.1, hv], h1.2.symm, rfl⟩
     · simp only [hv, if_false] at h
       exact (raise_ok.mp h).elim
-  · simp only [hid, if_false] at h
-    obtain ⟨l, s1, h1, h2⟩ := bind_ok.mp h
-    obtain ⟨h3, rfl⟩ := pure_ok' h2
-    simp only [Prod.mk.injEq] at h3
-    exact Or.inr ⟨hid, l, h1, h3.1.symm, h3.2.symm⟩
+  · simp only [hid] at h
+    obtain ⟨v, s1, h1, h2⟩ := bind_ok.mp h
+    obtain ⟨h3, h4, rfl⟩ := freshS_ok h2
+    exact Or.inr ⟨by simpa using hid, v, h1, h3, h4⟩
 
-/-- the value selected by a merge, whichever path it took -/
-theorem mergeObj_val {c : LinComb} {t f r : Obj} {n n' : Nat} {s s' : St}
-    (h : mergeObj c t f n s = .ok ((r, n'), s')) :
-    Same s s' ∧ r.v.value = f.v.value + c.value * (t.v.value - f.v.value) := by
-  rcases mergeObj_ok h with ⟨_, hv, rfl, _, rfl⟩ | ⟨_, l, hl, rfl, _⟩
-  · exact ⟨Same.refl _, by rw [hv]; ring⟩
-  · exact iteLLL_val hl
+theorem mergeT_leaf_ok {c : LinComb} {a b : SVal} {r : TVal} {n n' : Nat} {s s' : St}
+    (h : mergeT c (.leaf a) (.leaf b) n s = .ok ((r, n'), s')) :
+    ∃ o, mergeS c a b n s = .ok ((o, n'), s') ∧ r = .leaf o := by
+  unfold mergeT at h
+  obtain ⟨⟨o, n1⟩, s1, h1, h2⟩ := bind_ok.mp h
+  obtain ⟨h3, rfl⟩ := pure_ok' h2
+  simp only [Prod.mk.injEq] at h3
+  obtain ⟨rfl, rfl⟩ := h3
+  exact ⟨o, h1, rfl⟩
+
+theorem mergeT_node_ok {c : LinComb} {ts fs : List TVal} {r : TVal} {n n' : Nat} {s s' : St}
+    (h : mergeT c (.node ts) (.node fs) n s = .ok ((r, n'), s')) :
+    ∃ rs, mergeTL c ts fs n s = .ok ((rs, n'), s') ∧ r = .node rs := by
+  unfold mergeT at h
+  obtain ⟨⟨rs, n1⟩, s1, h1, h2⟩ := bind_ok.mp h
+  obtain ⟨h3, rfl⟩ := pure_ok' h2
+  simp only [Prod.mk.injEq] at h3
+  obtain ⟨rfl, rfl⟩ := h3
+  exact ⟨rs, h1, rfl⟩
+
+theorem mergeT_mixed_ok {c : LinComb} {t f r : TVal} {n n' : Nat} {s s' : St}
+    (h : mergeT c t f n s = .ok ((r, n'), s')) :
+    (∃ a b, t = .leaf a ∧ f = .leaf b) ∨ (∃ ts fs, t = .node ts ∧ f = .node fs) := by
+  cases t with
+  | leaf a => cases f with
+    | leaf b => exact Or.inl ⟨a, b, rfl, rfl⟩
+    | node fs => unfold mergeT at h; exact (raise_ok.mp h).elim
+  | node ts => cases f with
+    | leaf b => unfold mergeT at h; exact (raise_ok.mp h).elim
+    | node fs => exact Or.inr ⟨ts, fs, rfl, rfl⟩
+
+theorem mergeTL_nil_ok {c : LinComb} {rs : List TVal} {n n' : Nat} {s s' : St}
+    (h : mergeTL c [] [] n s = .ok ((rs, n'), s')) : rs = [] ∧ n' = n ∧ s' = s := by
+  unfold mergeTL at h
+  obtain ⟨h1, rfl⟩ := pure_ok' h
+  simp only [Prod.mk.injEq] at h1
+  exact ⟨h1.1.symm, h1.2.symm, rfl⟩
+
+theorem mergeTL_cons_ok {c : LinComb} {t f : TVal} {ts fs rs : List TVal} {n n' : Nat} {s s' : St}
+    (h : mergeTL c (t :: ts) (f :: fs) n s = .ok ((rs, n'), s')) :
+    ∃ r n1 s1 rs', mergeT c t f n s = .ok ((r, n1), s1) ∧ mergeTL c ts fs n1 s1 = .ok ((rs', n'), s') ∧ rs = r :: rs' := by
+  unfold mergeTL at h
+  obtain ⟨⟨r, n1⟩, s1, h1, h⟩ := bind_ok.mp h
+  obtain ⟨⟨rs', n2⟩, s2, h2, h⟩ := bind_ok.mp h
+  obtain ⟨h3, rfl⟩ := pure_ok' h
+  simp only [Prod.mk.injEq] at h3
+  obtain ⟨rfl, rfl⟩ := h3
+  exact ⟨r, n1, s1, rs', h1, h2, rfl⟩
+
+theorem mergeTL_len_ok {c : LinComb} {ts fs rs : List TVal} {n n' : Nat} {s s' : St}
+    (h : mergeTL c ts fs n s = .ok ((rs, n'), s')) :
+    (ts = [] ∧ fs = []) ∨ (∃ t ts' f fs', ts = t :: ts' ∧ fs = f :: fs') := by
+  cases ts with
+  | nil => cases fs with
+    | nil => exact Or.inl ⟨rfl, rfl⟩
+    | cons f fs' => unfold mergeTL at h; exact (raise_ok.mp h).elim
+  | cons t ts' => cases fs with
+    | nil => unfold mergeTL at h; exact (raise_ok.mp h).elim
+    | cons f fs' => exact Or.inr ⟨t, ts', f, fs', rfl, rfl⟩
 
 theorem mergeNodef_nil {c : LinComb} {vals : Vals} {n : Nat} :
     mergeNodef c vals [] n = pure ([], n) := rfl
 
-theorem mergeNodef_cons_ok {c : LinComb} {vals rest : Vals} {x : Nat} {o : Obj} {n n' : Nat} {rs : Vals} {s s' : St}
+theorem mergeNodef_cons_ok {c : LinComb} {vals rest : Vals} {x : Nat} {o : TVal} {n n' : Nat} {rs : Vals} {s s' : St}
     (h : mergeNodef c vals ((x, o) :: rest) n s = .ok ((rs, n'), s')) :
-    ∃ t r n1 s1 rs', vals.get? x = some t ∧ mergeObj c t o n s = .ok ((r, n1), s1) ∧
+    ∃ t r n1 s1 rs', vals.get? x = some t ∧ mergeT c t o n s = .ok ((r, n1), s1) ∧
       mergeNodef c vals rest n1 s1 = .ok ((rs', n'), s') ∧ rs = (x, r) :: rs' := by
   unfold mergeNodef at h
   cases hx : vals.get? x with
@@ -162,9 +238,9 @@ theorem mergeNodef_cons_ok {c : LinComb} {vals rest : Vals} {x : Nat} {o : Obj} 
     obtain ⟨rfl, rfl⟩ := h3
     exact ⟨t, r, n1, s1, rs', rfl, h1, h2, rfl⟩
 
-theorem mergeBak_cons_ok {c : LinComb} {bak rest : Vals} {x : Nat} {t : Obj} {n n' : Nat} {rs : Vals} {s s' : St}
+theorem mergeBak_cons_ok {c : LinComb} {bak rest : Vals} {x : Nat} {t : TVal} {n n' : Nat} {rs : Vals} {s s' : St}
     (h : mergeBak c bak ((x, t) :: rest) n s = .ok ((rs, n'), s')) :
-    ∃ f r n1 s1 rs', bak.get? x = some f ∧ mergeObj c t f n s = .ok ((r, n1), s1) ∧
+    ∃ f r n1 s1 rs', bak.get? x = some f ∧ mergeT c t f n s = .ok ((r, n1), s1) ∧
       mergeBak c bak rest n1 s1 = .ok ((rs', n'), s') ∧ rs = (x, r) :: rs' := by
   unfold mergeBak at h
   cases hx : bak.get? x with
@@ -204,7 +280,7 @@ theorem exit_ok {ctx ctx' : BCtx} {bv bv' : BV} {s s' : St} (h : ctx.exit bv s =
     exact Or.inr ⟨nd0, rfl, h2⟩
 
 theorem enter_ok {ctx ctx' : BCtx} {c : LinComb} {bv : BV} {s s' : St} (h : ctx.enter c bv s = .ok (ctx', s')) :
-    ∃ og, addGuard (.lcb c) s = .ok (og, s') ∧ ctx' = { ctx with bak := bv.vals, cond := c, origguard := og } := by
+    ∃ og, addGuard (.lcb c) s = .ok (og, s') ∧ ctx' = { ctx with bak := bv.vals.backup, cond := c, origguard := og } := by
   unfold BCtx.enter at h
   obtain ⟨og, s1, h1, h⟩ := bind_ok.mp h
   obtain ⟨rfl, rfl⟩ := pure_ok' h
@@ -230,7 +306,7 @@ theorem andBB_val {x y r : LinComb} {s s' : St} (h : andBB x y s = .ok (r, s')) 
 
 theorem ifNew_ok {c : LinComb} {bv : BV} {ctx : BCtx} {s s' : St} (h : ifNew c bv s = .ok (ctx, s')) :
     ∃ ic s1 og, boolNot c s = .ok (ic, s1) ∧ addGuard (.lcb c) s1 = .ok (og, s') ∧
-      ctx = { isIf := true, bak := bv.vals, cond := c, icond := some ic, nodefvals := none, origguard := og } := by
+      ctx = { isIf := true, bak := bv.vals.backup, cond := c, icond := some ic, nodefvals := none, origguard := og } := by
   unfold ifNew at h
   obtain ⟨ic, s1, h1, h⟩ := bind_ok.mp h
   obtain ⟨og, h2, rfl⟩ := enter_ok h
@@ -238,7 +314,7 @@ theorem ifNew_ok {c : LinComb} {bv : BV} {ctx : BCtx} {s s' : St} (h : ifNew c b
 
 theorem whileNew_ok {c : LinComb} {bv : BV} {ctx : BCtx} {s s' : St} (h : whileNew c bv s = .ok (ctx, s')) :
     ∃ og, addGuard (.lcb c) s = .ok (og, s') ∧
-      ctx = { isIf := false, bak := bv.vals, cond := c, icond := none, nodefvals := none, origguard := og } := by
+      ctx = { isIf := false, bak := bv.vals.backup, cond := c, icond := none, nodefvals := none, origguard := og } := by
   unfold whileNew at h
   obtain ⟨og, h2, rfl⟩ := enter_ok h
   exact ⟨og, h2, rfl⟩
